@@ -607,8 +607,11 @@ def limiter_machine(rep, lib, rid="C08-LIMITER-MACHINE"):
     """The limiter as a finite machine, extracted by partial evaluation and explored exhaustively for small S, T."""
     from lib.machine import run_method
     from lib.peval import ok as OK
+    deep = getattr(rep, "tier", "quick") == "thorough"
+    SMAX = 8 if deep else 4          # the thorough tier explores skip 0..7 x take none/0..7 over 18 rows
+    NROWS = 2 * SMAX + 2 if deep else 9
     r = rep.rule(rid, "the limiter, as the state machine its process() body implements (state = skipped, passed): for "
-                 "every skip S in 0..3, take T in {none, 0..3} and every stream of up to 9 rows it forwards exactly the "
+                 "every skip S in 0..3 (0..7 in the thorough tier), take T in {none, 0..3 (0..7)} and every stream of up to 9 (18) rows it forwards exactly the "
                  "rows S..S+T-1, answers Break as soon as the T-th row was forwarded (at the first row after the skipped "
                  "ones when T = 0) and not before, answers what its successor answers when there is no take, and starts "
                  "from skipped = passed = 0", floor=20,
@@ -668,14 +671,14 @@ def limiter_machine(rep, lib, rid="C08-LIMITER-MACHINE"):
             return None
         ns = s[2]
         return (ns[fn.index("skipped")], ns[fn.index("passed")], len(fwd), rv[2][0])
-    for S in range(4):
-        for T in (None, 0, 1, 2, 3):
+    for S in range(SMAX):
+        for T in (None,) + tuple(range(SMAX)):
             key = "limiter[skip=%d,take=%s]" % (S, "none" if T is None else T)
             skipped, passed = 0, 0
             forwarded = []
             problem = None
             broke_at = None
-            for i in range(9):
+            for i in range(NROWS):
                 t = step(S, T, skipped, passed, CONT)
                 if t is None or t[0] is None or t[1] is None:
                     problem = "row %d: the transition is not a function of (skip, take, skipped, passed): unrecognised " \
@@ -697,11 +700,11 @@ def limiter_machine(rep, lib, rid="C08-LIMITER-MACHINE"):
                     problem = "row %d: unknown decision" % i
                     break
             if problem is None:
-                want = [i for i in range(9) if i >= S and (T is None or i < S + T)]
+                want = [i for i in range(NROWS) if i >= S and (T is None or i < S + T)]
                 if T is not None:
                     want_break = S + max(T, 1) - 1
                     want = [i for i in want if i <= want_break]
-                    if broke_at is None and want_break < 9:
+                    if broke_at is None and want_break < NROWS:
                         problem = "never answers Break (rows forwarded: %s)" % forwarded
                     elif broke_at is not None and broke_at != want_break:
                         problem = "answers Break at row %d, expected at row %d (rows forwarded: %s)" % (
